@@ -248,7 +248,21 @@ func stmtClass(args []string, out string) string {
 func stmtNontrivial(args []string, out string) bool { return strings.Count(args[0], ",") >= 8 }
 
 func init() {
-	parseS := func(p *influxql.Parser) error { _, err := p.ParseStatement(); return err }
+	// acceptance of one statement: ParseStatement succeeds and nothing but semicolons is left
+	// (ParseStatement itself does not look at what follows the statement)
+	parseS := func(p *influxql.Parser) error {
+		if _, err := p.ParseStatement(); err != nil {
+			return err
+		}
+		q, err := p.ParseQuery()
+		if err != nil {
+			return fmt.Errorf("text after the statement: %v", err)
+		}
+		if len(q.Statements) != 0 {
+			return fmt.Errorf("text after the statement parses as %d more statement(s)", len(q.Statements))
+		}
+		return nil
+	}
 	parseQ := func(p *influxql.Parser) error { _, err := p.ParseQuery(); return err }
 	register(&stream{name: "parse.stmt", gen: genParseStmt, impl: implParseStmt, known: knownAccepts(parseS),
 		prop:  propAccepts(parseS),
